@@ -29,7 +29,7 @@ MUTANTS = [
         {"file": "src/coordinator/sync.rs", "old": "            \"SETCLUSTER_TMP\".to_string(),", "new": "            \"SETCLUSTER\".to_string(),"}],
      "expect": "C07.D2:order"},
     {"name": "commit-failure-ignored", "file": "src/coordinator/core.rs", "old": "            error!(\"failed to commit migration state: {:?}\", err);\n            return Err(err);", "new": "            error!(\"failed to commit migration state: {:?}\", err);", "expect": "C07.D1:failed-commit"},
-    {"name": "sync-first-ten-only", "file": "src/coordinator/core.rs", "old": "        while let Some(results) = s.next().await {\n            let mut proxies = vec![];", "new": "        if let Some(results) = s.next().await {\n            let mut proxies = vec![];", "expect": "C07.D4"},
+    {"name": "sync-first-batch-only", "file": "src/coordinator/core.rs", "after": "ProxyMetaRespSynchronizer<P, M, S>\n{", "old": "        while let Some(results) = s.next().await {\n            let mut proxies = vec![];", "new": "        if let Some(results) = s.next().await {\n            let mut proxies = vec![];", "expect": "C07.D4"},
 ]
 
 
